@@ -189,3 +189,8 @@ func VerifC16_OrchestrationKeys() {
 	base.NewLogProcessCounter(verifMetrics(), verifProgSchema, locs, []string{"out"})
 	sym.Reach("accepted")
 }
+
+// VerifC16_AcceptedTemplateSlicesRun: every accepted substring template processes every value without panicking.
+//
+//verif:reach sliced
+func VerifC16_AcceptedTemplateSlicesRun() { VerifC15_TemplateSlices() }
